@@ -39,7 +39,10 @@ LEVEL_TEXT = ('(a) Complete enumeration inside Coq (vm_compute, 27 tables x 15^3
               'C17_gcode_unhashable; tied by random call sequences on a cleared cache (per call: exception class or table id + which call '
               'created the object). The loader gcode() is also tied by comparing gcode(id) with the regenerated tables; the model of convert.py is tied by running the '
               'real script (runpy, scratch cwd, patched CODES) on synthetic gc.prt-like texts and alphabets and comparing with the model; '
-              'the history clause is partial (static AST rule + snapshot testing).')
+              'the shipped gc.json is re-derived from gc.prt by the real convert.py (in-process and in a subprocess with another PYTHONHASHSEED). '
+              'The history clause is partial: static AST rule (stores / mutating calls / augmented assignments through gcode() results and '
+              'their aliases) + snapshot testing over random histories of translate (all options), find_orfs, match/matchall start/stop, '
+              'BioSeq/BioBasket wrappers and the CLI translate command, observing both cached call forms gcode(id) and gcode(tt=id).')
 LEVEL_NOTE = ('Trusted: Coq kernel/vm_compute; tools/gens/gcode.py, gcode_thm.py, c17.py (translators incl. the independent gc.prt parser); '
               'json/set/lru_cache/runpy of CPython. No axioms. Not proved: that no Python operation mutates the cached Attr objects '
               '(checked by AST rule and snapshots only; the cache model shows stability of READS, not absence of mutation through aliases). '
@@ -232,7 +235,8 @@ def _conv_spec(case, got):
     if isinstance(got, dict):
         return None
     import sugar.data
-    codes = dict(sugar.data.CODES) if case['codes'] == 'CODES' else {k: v for k, v in case['codes']}
+    # the shipped alphabet is judged against the hand-written IUPAC code, not against sugar.data.CODES itself
+    codes = dict(IUPAC) if case['codes'] == 'CODES' else {k: v for k, v in case['codes']}
     letters = [k for k in codes if k not in '.-']
     if any(x not in 'TCAG' for k in letters for x in codes[k]):
         return None
@@ -360,6 +364,9 @@ def impl(case):
     assert gc.id == case['id']
     if case.get('ttinv'):
         assert all(isinstance(v, set) for v in gc.ttinv.values()), 'ttinv rows are not sets'
+        assert all(type(getattr(gc, f)) is set for f in ('starts', 'stops', 'astarts', 'astops')), 'start/stop collections are not sets'
+        from collections.abc import Mapping
+        assert isinstance(gc.tt, Mapping) and isinstance(gc.ttinv, Mapping) and isinstance(gc.name, str) and type(gc.id) is int
         return [[a, sorted(codon_num(x) for x in gc.ttinv[a])] for a in sorted(gc.ttinv)]
     c = case['codon']
     return [gc.tt.get(c), c in gc.starts, c in gc.stops, c in gc.astarts, c in gc.astops]
@@ -481,20 +488,38 @@ def _ast_violations():
                 continue
             p = os.path.join(dp, f)
             tree = ast.parse(open(p).read())
-            for fn in [n for n in ast.walk(tree) if isinstance(n, (ast.FunctionDef, ast.Module))]:
-                names = set()
-                for n in ast.walk(fn):
-                    if isinstance(n, ast.Assign) and isinstance(n.value, ast.Call) and getattr(n.value.func, 'id', getattr(n.value.func, 'attr', None)) == 'gcode':
-                        names |= {t.id for t in n.targets if isinstance(t, ast.Name)}
-                if not names:
-                    continue
+            for fn in [n for n in ast.walk(tree) if isinstance(n, (ast.FunctionDef, ast.AsyncFunctionDef, ast.Module))]:
                 if isinstance(fn, ast.FunctionDef) and fn.name == 'gcode':
                     continue        # the loader itself builds the object before it is cached
 
-                def rooted(e):
-                    while isinstance(e, (ast.Attribute, ast.Subscript)):
-                        e = e.value
-                    return isinstance(e, ast.Name) and e.id in names
+                def is_gcode(e):
+                    return isinstance(e, ast.Call) and getattr(e.func, 'id', getattr(e.func, 'attr', None)) == 'gcode'
+                names, aliases = set(), set()
+
+                def rooted(e, also=()):
+                    """an attribute / subscript chain (or .values() / .items() / .keys() view) that ends in a gcode() result"""
+                    while True:
+                        if isinstance(e, (ast.Attribute, ast.Subscript)):
+                            e = e.value
+                        elif (isinstance(e, ast.Call) and isinstance(e.func, ast.Attribute) and e.func.attr in ('values', 'items', 'keys', 'get')
+                              and also):
+                            e = e.func.value
+                        else:
+                            break
+                    return (isinstance(e, ast.Name) and (e.id in names or e.id in aliases)) or is_gcode(e)
+                for _round in range(3):      # names bound to a gcode() result, then names bound to parts of it (aliases)
+                    for n in ast.walk(fn):
+                        if isinstance(n, ast.Assign) and is_gcode(n.value):
+                            names |= {t.id for t in n.targets if isinstance(t, ast.Name)}
+                        elif isinstance(n, ast.NamedExpr) and is_gcode(n.value) and isinstance(n.target, ast.Name):
+                            names.add(n.target.id)
+                        elif isinstance(n, ast.Assign) and isinstance(n.value, (ast.Attribute, ast.Subscript)) and rooted(n.value):
+                            aliases |= {t.id for t in n.targets if isinstance(t, ast.Name)}
+                        elif isinstance(n, (ast.For, ast.comprehension)) and rooted(n.iter, also=True) and not isinstance(n.iter, ast.Name):
+                            aliases |= {t.id for t in ast.walk(n.target) if isinstance(t, ast.Name)}
+                uses_gcode = names or any(is_gcode(n) for n in ast.walk(fn))
+                if not uses_gcode:
+                    continue
                 for n in ast.walk(fn):
                     tg = []
                     if isinstance(n, ast.Assign):
@@ -506,6 +531,9 @@ def _ast_violations():
                     for t in tg:
                         if isinstance(t, (ast.Attribute, ast.Subscript)) and rooted(t):
                             bad.append('%s:%d store through a gcode() result' % (os.path.relpath(p, root), n.lineno))
+                        elif isinstance(n, ast.AugAssign) and isinstance(t, ast.Name) and t.id in aliases:
+                            bad.append('%s:%d augmented assignment to %s, an alias of a part of a gcode() result (in-place for sets/dicts)'
+                                       % (os.path.relpath(p, root), n.lineno, t.id))
                     if isinstance(n, ast.Call) and isinstance(n.func, ast.Attribute) and n.func.attr in MUTATORS and rooted(n.func.value):
                         bad.append('%s:%d %s() on a gcode() result' % (os.path.relpath(p, root), n.lineno, n.func.attr))
     return bad
@@ -515,11 +543,45 @@ def _snapshot():
     from sugar.data import gcode
     snap = {}
     for t in IDS:
-        gc = gcode(t)
-        snap[t] = json.dumps({'id': gc.id, 'name': gc.name, 'tt': dict(gc.tt), 'ttinv': {k: sorted(v) for k, v in gc.ttinv.items()},
-                              'starts': sorted(gc.starts), 'stops': sorted(gc.stops), 'astarts': sorted(gc.astarts),
-                              'astops': sorted(gc.astops), 'keys': sorted(vars(gc))}, sort_keys=True)
+        snap[t] = ''
+        for gc in (gcode(t), gcode(tt=t)) + ((gcode(),) if t == 1 else ()):
+            snap[t] += json.dumps({'id': gc.id, 'name': gc.name, 'tt': dict(gc.tt), 'ttinv': {k: sorted(v) for k, v in gc.ttinv.items()},
+                                   'starts': sorted(gc.starts), 'stops': sorted(gc.stops), 'astarts': sorted(gc.astarts),
+                                   'astops': sorted(gc.astops), 'keys': sorted(vars(gc))}, sort_keys=True)
     return snap
+
+
+def _reproduce_checks(rng, cov):
+    """gc.json is what convert.py makes of gc.prt (any iteration order of the Python set all_codes)"""
+    import subprocess, sys, tempfile, shutil
+    import sugar.data
+    d = os.path.join(os.path.dirname(sugar.data.__file__), 'data_gcode')
+    text = open(os.path.join(d, 'gc.prt'), encoding='latin-1').read()
+    shipped = _canon_json(json.load(open(os.path.join(d, 'gc.json'))))
+    runs = []
+    try:
+        runs.append(('in-process', _canon_json(run_convert(text, 'CODES'))))
+    except Exception as e:
+        runs.append(('in-process', {'e': type(e).__name__}))
+    seed = rng.randrange(1, 4000000)
+    tmp = tempfile.mkdtemp(prefix='C17-repro-')
+    try:
+        shutil.copy(os.path.join(d, 'gc.prt'), os.path.join(tmp, 'gc.prt'))
+        env = dict(os.environ, PYTHONHASHSEED=str(seed), PYTHONPATH=os.path.dirname(os.path.dirname(os.path.dirname(sugar.data.__file__))))
+        r = subprocess.run([sys.executable, os.path.join(d, 'convert.py')], cwd=tmp, env=env, capture_output=True, timeout=120)
+        if r.returncode == 0:
+            runs.append(('PYTHONHASHSEED=%d' % seed, _canon_json(json.load(open(os.path.join(tmp, 'gc.json'))))))
+        else:
+            runs.append(('PYTHONHASHSEED=%d' % seed, {'e': r.stderr.decode('latin-1').strip().splitlines()[-1][:200] if r.stderr.strip() else 'exit %d' % r.returncode}))
+    finally:
+        shutil.rmtree(tmp, ignore_errors=True)
+    cov['convert_py_reruns'] = [how for how, _ in runs]
+    for how, got in runs:
+        if got != shipped:
+            diff = 'raised %s' % got['e'] if isinstance(got, dict) else next(
+                ('table %s field %d' % (g[0], k) for g, w in zip(got, shipped) for k in range(len(g)) if g[k] != w[k]), 'table set differs')
+            yield {'case': {'convert.py on the shipped gc.prt': how}, 'impl': None, 'noshrink': True,
+                   'spec': 'sugar/data/data_gcode/convert.py run on the shipped gc.prt (%s) does not reproduce the shipped gc.json: %s' % (how, diff)}
 
 
 def extra_checks(rng, tier, cov):
@@ -527,6 +589,7 @@ def extra_checks(rng, tier, cov):
     from sugar.core.cane import translate
     for b in _ast_violations():
         yield {'case': {'static': b}, 'impl': None, 'spec': 'history clause: ' + b, 'noshrink': True}
+    yield from _reproduce_checks(rng, cov)
     if tier == 'thorough':
         n_all = 0
         for t in IDS:
@@ -545,39 +608,70 @@ def extra_checks(rng, tier, cov):
     import warnings
     from sugar.data import gcode
 
-    def light(t):      # cheap per-call fingerprint of one shared table
-        gc = gcode(t)
-        return (len(gc.tt), len(gc.starts), len(gc.stops), len(gc.astarts), len(gc.astops), sum(len(v) for v in gc.ttinv.values()),
-                len(gc.ttinv), len(vars(gc)))
+    def light(t):      # per-call fingerprint of one shared table, as reached through both cached call forms
+        out = []
+        for gc in (gcode(t), gcode(tt=t)):
+            out.append((len(gc.tt), len(gc.starts), len(gc.stops), len(gc.astarts), len(gc.astops),
+                        sum(len(v) for v in gc.ttinv.values()), len(gc.ttinv), len(vars(gc)), gc.name, gc.id,
+                        hash(frozenset(gc.tt.items())), hash(frozenset(gc.stops)), hash(frozenset(gc.starts))))
+        return out
     first_change = None
+    import contextlib, io
+    from sugar.core.cane import find_orfs, match
+    from sugar.scripts import cli
+    ops_seen = {}
     for _ in range(n):
         s = ''.join(rng.choice('ACGTUN-RY') for _ in range(rng.randrange(0, 40)))
-        if rng.random() < .3:      # an open reading frame without final stop, DNA or RNA spelling
+        r = rng.random()
+        if r < .3:      # an open reading frame without final stop, DNA or RNA spelling
             s = ''.join(rng.choice(['GCT', 'AAA', 'GGN', 'CTR', 'ATG', 'TTY']) for _ in range(rng.randrange(1, 8)))
             if rng.random() < .5:
                 s = s.replace('T', 'U')
+        elif r < .5:    # start ... stop, ambiguous stops, gaps
+            s = (rng.choice(['ATG', 'TTG', 'CTG', 'ATR', 'NTG', 'A-TG']) +
+                 ''.join(rng.choice(['GCT', 'AAA', 'TAR', 'TGA', 'G-C-T', 'NNN', 'TRA']) for _ in range(rng.randrange(0, 6))) +
+                 rng.choice(['TAA', 'TAG', 'TGA', 'TAR', 'TCA', 'AGA', '']))
         tt = rng.choice(IDS)
         kw = dict(complete=rng.random() < .5, check_start=rng.choice([None, False, True]), check_stop=rng.random() < .3,
-                  final_stop=rng.choice([None, True, False]), astop=rng.choice('X*?'), tt=tt, warn=rng.random() < .5)
-        l0 = light(tt)
-        with warnings.catch_warnings():
-            warnings.simplefilter('ignore')
-            try:
-                translate(s, **kw)
-                calls += 1
-            except (ValueError, KeyError):
-                calls += 1
-            try:
-                q = BioSeq(s.replace('N', 'A').replace('R', 'G').replace('Y', 'C'))
-                q.copy().translate(complete=True, tt=tt)
-                q.find_orfs(rf='both')
-                q.matchall('stop', rf='both')
-                BioBasket([q]).copy().translate(complete=True, check_start=False, tt=tt)
-                calls += 4
-            except (ValueError, KeyError):
-                pass
-        if first_change is None and light(tt) != l0:
-            first_change = {'table': tt, 'seq': s, 'translate_options': {k: v for k, v in kw.items() if k != 'tt'}}
+                  final_stop=rng.choice([None, True, False]), astop=rng.choice('X*?'), tt=tt, warn=rng.random() < .5,
+                  gap=rng.choice(['-', '-', None, '.']), gap_after=rng.choice([2, 2, 0, 1, None]))
+        plain = s.replace('N', 'A').replace('R', 'G').replace('Y', 'C')
+        okw = dict(rf=rng.choice(['fwd', 'bwd', 'both', 0, -1, (0, -2)]), need_start=rng.choice(['always', 'once', 'never']),
+                   need_stop=rng.random() < .5, minlen=rng.choice([0, 0, 3, 30]), start=rng.choice(['start', 'start', 'ATG|TTG']),
+                   stop=rng.choice(['stop', 'stop', 'TAA']))
+        mrf = rng.choice(['fwd', 'bwd', 'both', 1, -3, None])
+        ops = {
+            'translate': lambda: translate(s, **kw),
+            'translate(BioSeq)': lambda: translate(BioSeq(s), **kw),
+            'BioSeq.translate': lambda: BioSeq(s).translate(**kw),
+            'BioSeq.copy.translate': lambda: BioSeq(plain).copy().translate(complete=True, tt=tt),
+            'BioBasket.translate': lambda: BioBasket([BioSeq(plain), BioSeq(s)]).translate(**kw),
+            'find_orfs': lambda: find_orfs(BioSeq(s), **okw),
+            'BioSeq.find_orfs': lambda: BioSeq(plain).find_orfs(**okw),
+            'BioBasket.find_orfs': lambda: BioBasket([BioSeq(plain)]).find_orfs(rf='both'),
+            'match(start)': lambda: match(BioSeq(s), 'start', rf=mrf, gap=kw['gap']),
+            'match(stop)': lambda: match(BioSeq(s), 'stop', rf=mrf, matchall=True),
+            'BioSeq.matchall(stop)': lambda: BioSeq(plain).matchall('stop', rf='both'),
+            'BioSeq.match(start)': lambda: BioSeq(plain).match('start', rf=mrf),
+            'cli translate': lambda: cli(['translate', plain or 'ATG', '-tt', str(tt)] + (['-c'] if kw['complete'] else [])),
+        }
+        names = rng.sample(sorted(ops), rng.randrange(1, 5))
+        if 'translate' not in names and rng.random() < .5:
+            names.insert(0, 'translate')
+        for nm in names:
+            l0 = light(tt)
+            with warnings.catch_warnings(), contextlib.redirect_stdout(io.StringIO()), contextlib.redirect_stderr(io.StringIO()):
+                warnings.simplefilter('ignore')
+                try:
+                    ops[nm]()
+                except (Exception, SystemExit):      # the stream observes the tables, not the results
+                    pass
+            calls += 1
+            ops_seen[nm] = ops_seen.get(nm, 0) + 1
+            if first_change is None and light(tt) != l0:
+                first_change = {'table': tt, 'op': nm, 'seq': s, 'translate_options': {k: v for k, v in kw.items() if k != 'tt'},
+                                'orf_options': repr(okw), 'match_rf': repr(mrf)}
+    cov['history_ops'] = ops_seen
     # a copy handed out by the library is the caller's own: customising it in place must not reach the shared table
     import copy as _copy
     for t in IDS:
@@ -609,6 +703,10 @@ def extra_checks(rng, tier, cov):
 
 def search_cases(broken, rng):
     """a table theorem failed: enumerate the whole table (or all tables) with the independent oracle"""
+    if any('gcconv' in b or 'conv_all' in b or 'G_codes' in b or 'C17_Conv' in b for b in broken):
+        import sugar.data
+        yield {'conv': 1, 'codes': 'CODES',
+               'text': open(os.path.join(os.path.dirname(sugar.data.__file__), 'data_gcode', 'gc.prt'), encoding='latin-1').read()}
     ids = [int(m) for b in broken for m in re.findall(r'G_gcrec_(\d+)\.v', b)] or list(IDS)
     for t in ids:
         yield {'id': t, 'ttinv': True}
